@@ -476,6 +476,26 @@ fn run_job_inner(args: &Args, job: &Value, seq: usize) -> Value {
         let _ = std::fs::remove_dir_all(&sb);
         return out;
     }
+    if op["k"].as_str() == Some("path_eq") {
+        // std::path::Path equality of pairs of byte strings (what check_current's PathBuf comparison uses)
+        use std::os::unix::ffi::OsStrExt;
+        let mut v = vec![];
+        for pr in op["pairs"].as_array().cloned().unwrap_or_default() {
+            let a = unhex(pr[0].as_str().unwrap_or(""));
+            let b = unhex(pr[1].as_str().unwrap_or(""));
+            let pa = std::path::Path::new(std::ffi::OsStr::from_bytes(&a));
+            let pb = std::path::Path::new(std::ffi::OsStr::from_bytes(&b));
+            // PathBuf::push of relative components onto a: root_path.join(".").join(c1)...
+            let mut joined = pa.to_path_buf();
+            for c in pr[2].as_array().cloned().unwrap_or_default() {
+                joined.push(std::ffi::OsStr::from_bytes(&unhex(c.as_str().unwrap_or(""))));
+            }
+            v.push(json!([pa == pb, hex(joined.as_os_str().as_bytes())]));
+        }
+        out["res"] = json!({"eqs": v});
+        let _ = std::fs::remove_dir_all(&sb);
+        return out;
+    }
     if op["k"].as_str() == Some("capi_errors") {
         let root = Root::open(&rootpath).expect("root");
         use std::os::unix::io::AsFd;
